@@ -193,6 +193,7 @@ Lemma apply_md_umono : forall k a m, umono k (a_uats a) (a_uats (apply_md k a m)
 Proof.
   intros k a m. destruct m; cbn [apply_md a_uats upd_uats upd_o2s]; try apply umono_refl.
   - apply umono_insert.
+  - apply umono_insert.
   - apply umono_map_vals. intros i u. destruct (i =? sid); [apply ule_urevoke | apply ule_refl].
   - apply umono_map_vals. intros i u. apply ule_urevoke.
 Qed.
@@ -500,6 +501,7 @@ Lemma wf_apply_md : forall k a m, wf a -> wf (apply_md k a m).
 Proof.
   intros k a m H. unfold wf in *. destruct m; cbn [apply_md a_uats upd_uats upd_o2s]; try exact H.
   - apply nodup_insert_with. exact H.
+  - apply nodup_insert_with. exact H.
   - rewrite keys_map_vals. exact H.
   - rewrite keys_map_vals. exact H.
 Qed.
@@ -622,6 +624,13 @@ Proof.
     destruct (lookup p (a_uats a)) as [u|]; [exact H | apply memN_In; exact Hin].
 Qed.
 
+Lemma login_agree_p_login : forall a m, login_agree a m = true -> p_login a m = true.
+Proof.
+  intros a m. destruct m; cbn [login_agree p_login]; try (intro; reflexivity).
+  intro H. apply opt_eqb_eq in H. apply memN_In. unfold cred_ids. rewrite H. cbn [opt_list app].
+  left. reflexivity.
+Qed.
+
 Lemma hist_bridge : forall steps k a, wf a -> hist_agree k a steps = true -> hist_pcheck k a steps = true.
 Proof.
   induction steps as [|s r IH]; intros k a W H; cbn [hist_agree hist_pcheck] in *.
@@ -629,6 +638,10 @@ Proof.
   - bsplit.
     match goal with H : acct_eqb _ _ = true |- _ => apply acct_eqb_eq in H; rename H into E end.
     rewrite <- E.
+    match goal with H : forallb (login_agree _) _ = true |- _ => rename H into HL end.
+    assert (HL' : forallb (p_login a) (s_mods s) = true).
+    { apply forallb_forall. intros m Hm. rewrite forallb_forall in HL. apply login_agree_p_login. exact (HL m Hm). }
+    rewrite HL'.
     rewrite step_p_same_change by exact W.
     rewrite step_p_inv by exact W.
     rewrite step_p_orphans. cbn [andb].
